@@ -213,16 +213,18 @@ def write_json_menus(config: kconfiglib.Kconfig, filename: str, write_deprecated
             if len(sym.ranges) > 0:
                 for min_range, max_range, cond_expr in sym.ranges:
                     if kconfiglib.expr_value(cond_expr):
+                        # A bound without a numeric value counts as 0, like in Symbol.str_value
+                        low_s, high_s = min_range.str_value, max_range.str_value
                         if sym.type == kconfiglib.FLOAT:
                             greatest_range = [
-                                float(min_range.str_value),
-                                float(max_range.str_value),
+                                float(low_s) if kconfiglib.is_float(low_s) else 0.0,
+                                float(high_s) if kconfiglib.is_float(high_s) else 0.0,
                             ]
                         else:
                             base = 16 if sym.type == kconfiglib.HEX else 10
                             greatest_range = [
-                                int(min_range.str_value, base),
-                                int(max_range.str_value, base),
+                                int(low_s, base) if kconfiglib._is_base_n(low_s, base) else 0,
+                                int(high_s, base) if kconfiglib._is_base_n(high_s, base) else 0,
                             ]
                         break
 
